@@ -3,7 +3,7 @@
 # Confirms a seeded change in its scratch worktree /tmp/wt-<id>: builds (with and
 # without hooks), lib tests with the change, demo with and without the change.
 id=$1; shift
-wt=/tmp/wt-$id; out=$wt/out; log=$out/confirm.log
+wt=${SEED_WT:-/tmp/wt-$id}; out=$wt/out; log=$out/confirm.log
 export CARGO_TARGET_DIR=${SEED_TARGET:-$wt/target} CARGO_NET_OFFLINE=true
 cd $wt || exit 2
 git checkout -q -- . ; git clean -fdq -e out -e target
